@@ -13,7 +13,7 @@ case whose model output changes for tol*(1 +- 2^-20) is skipped (tag tight-skipp
 tolerance stream places points at distances 2^-40 (< tol) and 2^-30 (> tol) from others, all
 multiples of 2^-40 below 2^6, where the code's float subtractions are exact.
 """
-import os, time, tempfile, shutil, bisect
+import os, time, tempfile, shutil, bisect, json
 from fractions import Fraction as F
 import numpy as np
 
@@ -649,7 +649,38 @@ def kind_ok(values, kind):
     return True
 
 
-def as_container(values, kind):
+# every array / list the harness hands to the API (the CALLER's objects), with a snapshot: no call of the processor may change
+# them (handed_changed).  _SHARE: one object for all channels of a share group of the processor being built.
+HANDED = []
+_SHARE = {}
+
+
+def handed_reset():
+    del HANDED[:]
+    _SHARE.clear()
+
+
+def handed_changed():
+    """-> None, or which of the caller's containers no longer holds what was handed over"""
+    for what, obj, snap in HANDED:
+        now = obj.tolist() if isinstance(obj, np.ndarray) else list(obj)
+        if now != snap and not (len(now) == len(snap) and all(a == b or (a != a and b != b) for a, b in zip(now, snap))):
+            return f"the caller's {what} was modified by the processor: handed over {snap!r}, now {now!r}"
+    return None
+
+
+def as_container(values, kind, share=None, what="array"):
+    if share is not None and share in _SHARE:
+        return _SHARE[share]
+    obj = _as_container(values, kind)
+    HANDED.append((what + (f" (one object shared by the channels of group {share[1]})" if share is not None else ""), obj,
+                   obj.tolist() if isinstance(obj, np.ndarray) else list(obj)))
+    if share is not None:
+        _SHARE[share] = obj
+    return obj
+
+
+def _as_container(values, kind):
     vs = [float(v) for v in values]
     if not kind or kind == "f64" or not kind_ok(vs, kind):
         return np.array(vs, dtype=float)
@@ -672,8 +703,12 @@ def load_pulses(p, labels, spec):
     """set_coeffs builds Pulse(ham, targets, coeff=..., label=...) per channel (coeff an array, or True / False for a
     constant channel), set_tlist gives every channel that has one its own tlist; containers as the channel says"""
     chans = list(zip(labels, spec["chans"]))
-    p.set_coeffs({lab: (bool(ch["coeff"]) if is_const(ch) else as_container(ch["coeff"], ch.get("ckind"))) for lab, ch in chans})
-    p.set_tlist({lab: as_container(ch["tlist"], ch.get("tkind")) for lab, ch in chans if ch.get("tlist") is not None})
+    _SHARE.clear()
+    sh = lambda ch, k: ((k, ch[k]) if ch.get(k) is not None else None)
+    p.set_coeffs({lab: (bool(ch["coeff"]) if is_const(ch) else
+                        as_container(ch["coeff"], ch.get("ckind"), sh(ch, "cshare"), "coefficient array")) for lab, ch in chans})
+    p.set_tlist({lab: as_container(ch["tlist"], ch.get("tkind"), sh(ch, "tshare"), "tlist") for lab, ch in chans
+                 if ch.get("tlist") is not None})
 
 
 def embed(M, targets, dims):
@@ -1026,8 +1061,9 @@ def state_mats(state):
 def _pulse_of(state, ch):
     Pulse = _impl()[3]
     return Pulse(state_qobj(state["dims"], ch["targets"], ch["mseed"]), list(ch["targets"]),
-                 tlist=None if ch.get("tlist") is None else as_container(ch["tlist"], ch.get("tkind")),
-                 coeff=(bool(ch["coeff"]) if is_const(ch) else as_container(ch["coeff"], ch.get("ckind"))), label=ch["label"])
+                 tlist=None if ch.get("tlist") is None else as_container(ch["tlist"], ch.get("tkind"), what="tlist"),
+                 coeff=(bool(ch["coeff"]) if is_const(ch) else as_container(ch["coeff"], ch.get("ckind"), what="coefficient array")),
+                 label=ch["label"])
 
 
 def build_state_processor(state, via=None):
@@ -1078,11 +1114,12 @@ def apply_edit(p, state, e):
         ch["mseed"] = e["mseed"]
         p.pulses[e["chan"]].qobj = state_qobj(dims, ch["targets"], ch["mseed"])
     elif op == "coeff":
-        p.pulses[e["chan"]].coeff = bool(e["coeff"]) if isinstance(e["coeff"], bool) else np.array(e["coeff"], dtype=float)
+        p.pulses[e["chan"]].coeff = (bool(e["coeff"]) if isinstance(e["coeff"], bool)
+                                     else as_container(e["coeff"], None, what="coefficient array"))
         state["chans"][e["chan"]]["coeff"] = e["coeff"]
     elif op == "tlist":
-        p.pulses[e["chan"]].tlist = np.array(e["tlist"], dtype=float)
-        p.pulses[e["chan"]].coeff = np.array(e["coeff"], dtype=float)
+        p.pulses[e["chan"]].tlist = as_container(e["tlist"], None, what="tlist")
+        p.pulses[e["chan"]].coeff = as_container(e["coeff"], None, what="coefficient array")
         state["chans"][e["chan"]].update(tlist=list(e["tlist"]), coeff=list(e["coeff"]))
     elif op == "add":
         ch = dict(e["chan"])
@@ -1186,6 +1223,8 @@ def make_history(rng, nsteps=None, ctor=None):
     chans = []
     for k in range(rng.randint(1, 3)):
         tl, cs = _rand_step_grid(rng)
+        if flags()["zl"] and rng.random() < 0.3:      # full-length form: the last entry has no effect (and must survive every call)
+            cs = cs + [rng.choice([-1, 1]) * rng.uniform(0.2, 2.0)]
         chans.append({"label": f"p{k}", "targets": _rand_targets(rng, dims), "mseed": rng.randrange(2**31), "tlist": tl, "coeff": cs})
     if rng.random() < 0.2:
         chans.append({"label": "k", "targets": _rand_targets(rng, dims), "mseed": rng.randrange(2**31),
@@ -1315,6 +1354,9 @@ def probe_state(p, state, probes, fresh=True):
                     shutil.rmtree(dd, ignore_errors=True)
         except Exception as e:
             return f"{pr}: the implementation raised {type(e).__name__}: {str(e)[:120]}"
+        d = handed_after(pr)
+        if d:
+            return d
     if fresh:
         # the same fields on a fresh processor: bit-exact grid / coefficients, same propagators
         try:
@@ -1338,6 +1380,7 @@ def run_history(w, on_step=None):
     -> (fails, detail)"""
     import copy
     state = copy.deepcopy(w["state"])
+    handed_reset()
     try:
         p = build_state_processor(state)
     except Exception as e:
@@ -1464,6 +1507,94 @@ DIMS_ONLY_WITNESS = {"kind": "evolution", "spec": {
     "dims": [2, 3], "ctor": "dims", "seed": 51, "drift": {"targets": [1]}, "dm": False,
     "chans": [{"targets": [0], "tlist": [0.0, 0.4, 1.0], "coeff": [0.7, -1.1]},
               {"targets": [1, 0], "tlist": [0.0, 0.25, 0.6], "coeff": [-0.5, 0.9]}]}}
+
+
+def handed_after(call):
+    d = handed_changed()
+    return None if d is None else f"after {call}: {d}"
+
+
+PRE_CALLS = ["qobjevo_ideal", "qobjevo", "solver_ideal", "solver"]
+
+
+def pre_calls(p, spec):
+    """spec["pre"]: calls of the solver path made before anything else on the processor -> None or a description"""
+    for c in spec.get("pre") or []:
+        try:
+            if c in ("qobjevo_ideal", "qobjevo"):
+                p.get_qobjevo(noisy=(c == "qobjevo"))
+            else:
+                psi, _v = init_state(spec)
+                init = psi * psi.dag() if spec.get("dm") else psi
+                kw = {"noisy": False} if c == "solver_ideal" else {}
+                p.run_state(init, options={"method": "dop853", "atol": 1e-8, "rtol": 1e-8, "nsteps": 100000}, **kw)
+        except Exception as e:
+            return f"{c} (first call on the processor) raised {type(e).__name__}: {str(e)[:120]}"
+        d = handed_after({"qobjevo_ideal": "get_qobjevo(noisy=False)", "qobjevo": "get_qobjevo(noisy=True)",
+                          "solver_ideal": "run_state(noisy=False)", "solver": "run_state()"}[c] + " as the first call")
+        if d:
+            return d
+    return None
+
+
+def make_shared_spec(rng):
+    """one float64 array OBJECT as the coefficient of two or three channels: a channel whose grid has as many points as the
+    array has entries (full-length form: the last entry has no effect) and a channel with one point more (short form: the last
+    entry is the value of its last slot); sometimes also one tlist object shared by two channels; sometimes the solver path is
+    called first"""
+    nsub = rng.randint(1, 2)
+    dims = [rng.choice([2, 3]) for _ in range(nsub)]
+    m = rng.randint(2, 4)
+    amp = [rng.choice([-1, 1]) * rng.uniform(0.3, 2.0) for _ in range(m)]
+    def grid(n):
+        tl = [0.0]
+        for _ in range(n - 1):
+            tl.append(tl[-1] + rng.choice([rng.uniform(0.1, 0.8), rng.randint(1, 6) / 8]))
+        return tl
+    full = bool(flags()["zl"])              # tree as found before fixes/C14-2: a non-zero last entry is excluded by hypothesis
+    forms = [m if full else m + 1, m + 1]
+    if rng.random() < 0.4:
+        forms.append(rng.choice([m, m + 1]) if full else m + 1)
+    rng.shuffle(forms)
+    chans = [{"targets": rng.sample(range(nsub), rng.randint(1, min(2, nsub))), "tlist": grid(n), "coeff": list(amp), "cshare": 0}
+             for n in forms]
+    if rng.random() < 0.4:                   # an independent channel, or one that shares its tlist OBJECT with the first
+        c0 = chans[0]
+        if rng.random() < 0.5:
+            c0["tshare"] = 0
+            chans.append({"targets": rng.sample(range(nsub), 1), "tlist": list(c0["tlist"]), "tshare": 0,
+                          "coeff": [rng.uniform(-2, 2) for _ in range(len(c0["tlist"]) - 1)]})
+        else:
+            tl = grid(rng.randint(2, 4))
+            chans.append({"targets": rng.sample(range(nsub), 1), "tlist": tl, "coeff": [rng.uniform(-2, 2) for _ in range(len(tl) - 1)]})
+    spec = {"dims": dims, "seed": rng.randrange(2**31), "chans": chans, "dm": rng.random() < 0.3,
+            "drift": {"targets": rng.sample(range(nsub), 1)} if rng.random() < 0.5 else None}
+    if rng.random() < 0.4:
+        spec["pre"] = [rng.choice(PRE_CALLS)]
+    return spec
+
+
+def shared_tags(spec):
+    t = ["shared array objects"]
+    if any(c.get("tshare") is not None for c in spec["chans"]):
+        t.append("shared tlist object")
+    forms = {("full-length" if len(c["coeff"]) == len(c["tlist"]) else "short") for c in spec["chans"] if c.get("cshare") is not None}
+    t.append("shared coefficient: " + "+".join(sorted(forms)))
+    if spec.get("pre"):
+        t.append("solver path first: " + spec["pre"][0])
+    return t
+
+
+# one amplitude array for both drives: grid of 3 points (full-length form) and of 4 points (short form)
+SHARED_WITNESS = {"kind": "evolution", "spec": {
+    "dims": [2, 2], "seed": 91, "drift": {"targets": [0, 1]}, "dm": False,
+    "chans": [{"targets": [0], "tlist": [0.0, 0.4, 1.0], "coeff": [0.9, -0.5, 1.3], "cshare": 0},
+              {"targets": [1], "tlist": [0.0, 0.3, 0.7, 1.2], "coeff": [0.9, -0.5, 1.3], "cshare": 0}]}}
+# a full-length coefficient; get_qobjevo(noisy=False) is the first call on the processor
+SOLVER_FIRST_WITNESS = {"kind": "evolution", "spec": {
+    "dims": [2], "seed": 92, "drift": None, "dm": False, "pre": ["qobjevo_ideal", "solver_ideal"],
+    "chans": [{"targets": [0], "tlist": [0.0, 0.5, 1.25], "coeff": [0.8, -1.1, 0.6]},
+              {"targets": [0], "tlist": [0.0, 0.75, 1.0, 1.5], "coeff": [0.4, 0.9, -0.3]}]}}
 
 
 LEAK_WITNESS = {"kind": "evolution", "spec": {
@@ -1631,7 +1762,9 @@ class C14(PropertyCheck):
             ".tlist, add_pulse, remove_pulse, add_drift) and evolved again, 2-4 steps; non-trivial = at least "
             "two channels with different grids; near stream: two distinct points of different channels 1.5e-10 ... 1e-8*t apart at "
             "t ~ 1, 20, 1e3, 1e6; container stream: integer-dtype / float32 / list / tuple time grids and float32 / integer coefficient "
-            "arrays with exactly representable values; malformed inputs and save/reload are counted with their own tags")
+            "arrays with exactly representable values; aliasing stream: one array object as coefficient / tlist of several channels "
+            "(full-length and short form), solver path called before the resampling path, caller's arrays snapshot-compared; "
+            "malformed inputs and save/reload are counted with their own tags")
 
     def regenerate(self, ctx):
         FLAGS.update(detect_flags())
@@ -1933,8 +2066,12 @@ class C14(PropertyCheck):
     def _numeric_case(self, ctx, res, spec, tags, check_solver=True, check_reload=True):
         """run_analytically / get_full_coeffs / run_state / save-reload against an independent expm product
         over the model's merged grid.  Returns a description of the first mismatch or None."""
+        handed_reset()
         p, labels, drift_full, mats = build_processor(spec)
         load_pulses(p, labels, spec)
+        d = pre_calls(p, spec)
+        if d:
+            return d
         chs = "!".join((f"b:{int(ch['coeff'])}" + ("" if ch.get("tlist") is None else ":" + fl(F(x) for x in ch["tlist"]))) if is_const(ch)
                        else f"a:{fl(F(x) for x in ch['tlist'])}:{fl(F(x) for x in ch['coeff'])}" for ch in spec["chans"])
         o, tight = self._three(ctx, lambda tol: f"coeffs tol={fs(tol)} chans={chs}")
@@ -1985,7 +2122,7 @@ class C14(PropertyCheck):
                     return f"after save/reload run_analytically differs by {np.abs(U2 - Uref).max():.3e}"
             finally:
                 shutil.rmtree(d, ignore_errors=True)
-        return None
+        return handed_after("get_full_coeffs / run_analytically / run_state / save_coeff")
 
     def _model_grid_mismatch(self, ctx, p, spec):
         """get_full_tlist / get_full_coeffs of the processor object against the model's merged grid and resampled coefficients for
@@ -2083,6 +2220,14 @@ class C14(PropertyCheck):
         for spec in [dict(ROUNDING_WITNESS["spec"]), dict(ROUNDING_WITNESS_2["spec"])] + [make_rounding_spec(rng) for _ in range(28 * k)]:
             stream.append((spec, ["rounding"] + rounding_tags(spec)))
             nround += 1
+        # one array OBJECT as coefficient (or tlist) of several channels; the solver path called first
+        nsh = 0
+        for spec in [dict(SHARED_WITNESS["spec"]), dict(SOLVER_FIRST_WITNESS["spec"])] + [make_shared_spec(rng) for _ in range(22 * k)]:
+            stream.append((spec, shared_tags(spec) if any(c.get("cshare") is not None for c in spec["chans"]) else ["solver path first"]))
+            nsh += 1
+        for spec, _e in stream[:nnum]:
+            if rng.random() < 0.25:                   # ordinary processors too: a call of the solver path first
+                spec["pre"] = [rng.choice(PRE_CALLS[:3])]
         # containers and dtypes: integer-dtype / float32 / list / tuple time grids, float32 / integer coefficient arrays
         ndt = 0
         for spec in [dict(INT_GRID_WITNESS["spec"]), dict(MIXED_GRID_WITNESS["spec"])] + [make_dtype_spec(rng, all_int=(i % 2 == 0)) for i in range(24 * k)]:
@@ -2118,6 +2263,11 @@ class C14(PropertyCheck):
                          "run_state and save/reload (in varying order and subsets) against the expm product of the fields stated at "
                          "that moment, the model's merged grid / coefficients of the current channels, and a fresh processor built "
                          "from the current fields; processors constructed by every documented constructor form")
+        res.notes.append(f"aliasing stream: {nsh} processors in which ONE float64 array object is the coefficient of two or three channels "
+                         "(full-length form on a grid of m points, short form on a grid of m+1 points) or one tlist object the grid of "
+                         "two channels, 40 % of them - and a quarter of the ordinary random processors - with a call of the solver "
+                         "path (get_qobjevo / run_state, with and without noise) BEFORE the resampling path; every array handed to the "
+                         "API is snapshot-compared after every call")
         res.notes.append(f"container stream: {ndt} processors whose time grids are integer-dtype arrays (int64, int32, np.arange), float32 "
                          "arrays, Python lists / tuples and whose coefficients are float64 / float32 / integer arrays (half of them with "
                          "EVERY grid of integer dtype: the merged grid is an integer array), values exactly representable; compared "
@@ -2203,6 +2353,7 @@ class C14(PropertyCheck):
             return run_history(w)
         if kind == "evolution":
             spec = w["spec"]
+            handed_reset()
             try:
                 p, labels, drift_full, mats = build_processor(spec)
             except Exception as e:
@@ -2210,6 +2361,11 @@ class C14(PropertyCheck):
             load_pulses(p, labels, spec)
             grid = union_grid(spec)            # independent of the model: all points, no tolerance
             Uref = reference_U(grid, spec, drift_full, mats)
+            # calls of the solver path made BEFORE the resampling path (not judged themselves: noisy=False leaves the drift out);
+            # afterwards the caller's arrays must be what was handed over and every observable must still be right
+            d = pre_calls(p, spec)
+            if d:
+                return True, d
             try:
                 T = p.get_full_tlist()
                 C = p.get_full_coeffs()
@@ -2228,7 +2384,7 @@ class C14(PropertyCheck):
                     what = (f"{missing!r} missing (more than 1e-10 from every merged point)" if missing else
                             f"{[t for t in Tl if min(abs(g - t) for g in grid) > 0]!r} are not points of any channel")
                     return True, f"get_full_tlist {Tl!r} does not represent the breakpoints of the channels: {what}" + more
-                d = coeffs_mismatch(spec, T, C)
+                d = coeffs_mismatch(spec, T, C) or handed_after("get_full_coeffs")
                 if d:
                     return True, d
                 U = np.eye(Uref.shape[0], dtype=complex)
@@ -2238,7 +2394,7 @@ class C14(PropertyCheck):
                 return True, f"implementation raised {type(e).__name__}: {e}"
             if np.abs(U - Uref).max() > 1e-9:
                 return True, f"run_analytically differs from the time-ordered product by {np.abs(U - Uref).max():.3e}"
-            d = solver_operator_mismatch(p, spec, T, drift_full, mats)
+            d = handed_after("run_analytically") or solver_operator_mismatch(p, spec, T, drift_full, mats) or handed_after("get_qobjevo")
             if d:
                 return True, d
             psi, v = init_state(spec)
@@ -2250,6 +2406,9 @@ class C14(PropertyCheck):
             exp = np.outer(exp, exp.conj()) if spec.get("dm") else exp.reshape(-1, 1)
             if np.abs(fin - exp).max() > 2e-6:
                 return True, f"{how} differs from the time-ordered product by {np.abs(fin - exp).max():.3e}"
+            d = handed_after("run_state")
+            if d:
+                return True, d
             # save / reload of the coefficients
             dd = tempfile.mkdtemp(prefix="c14-")
             try:
@@ -2265,6 +2424,9 @@ class C14(PropertyCheck):
                     return True, f"save_coeff / read_coeff / run_analytically after the reload raised {type(e).__name__}: {e}"
                 if np.abs(U2 - Uref).max() > 1e-9:
                     return True, f"after save/reload run_analytically differs from the time-ordered product by {np.abs(U2 - Uref).max():.3e}"
+                d = handed_after("save_coeff / read_coeff")
+                if d:
+                    return True, d
             finally:
                 shutil.rmtree(dd, ignore_errors=True)
             return False, "analytical propagators, resampled coefficients, solver and save/reload agree with the time-ordered product"
@@ -2363,7 +2525,7 @@ class C14(PropertyCheck):
         if f:
             yield RUNSTATE_WITNESS, d
         for w in (ROUNDING_WITNESS, ROUNDING_WITNESS_2, CONST_WITNESS, CONST_WITNESS_2, RETARGET_WITNESS, NEAR_WITNESS, NEAR_WITNESS_2,
-                  INT_GRID_WITNESS, MIXED_GRID_WITNESS):
+                  INT_GRID_WITNESS, MIXED_GRID_WITNESS, SHARED_WITNESS, SOLVER_FIRST_WITNESS):
             f, d = self.oracle_replay(ctx, w)
             if f:
                 yield w, d
@@ -2374,6 +2536,11 @@ class C14(PropertyCheck):
             # (fixes/C14-7, `cu`): the slot only loses its own slice (fill_catchup_near), members must pass
             tiny = [TINY_STEP_WITNESS] + [{"kind": "evolution", "spec": make_tiny_step_spec(rng)} for _ in range(3)]
         for w in tiny + history_family()[::3] + [make_history(rng) for _ in range(8)] + constructor_witnesses():
+            f, d = self.oracle_replay(ctx, w)
+            if f:
+                yield w, d
+        for i in range(8):
+            w = {"kind": "evolution", "spec": make_shared_spec(rng)}
             f, d = self.oracle_replay(ctx, w)
             if f:
                 yield w, d
@@ -2422,7 +2589,15 @@ class C14(PropertyCheck):
                         if shape == "ends-last" and not flags()["hold"]:
                             continue
                     first.append({"kind": kind, "spec": add_const_channel(rng, base, shape=shape, value=val)})
-        first += [NEAR_WITNESS, NEAR_WITNESS_2, INT_GRID_WITNESS, MIXED_GRID_WITNESS]
+        first += [NEAR_WITNESS, NEAR_WITNESS_2, INT_GRID_WITNESS, MIXED_GRID_WITNESS, SHARED_WITNESS, SOLVER_FIRST_WITNESS]
+        for pre in [None] + PRE_CALLS:            # the shared-amplitude processor after every kind of first call, both channel orders
+            for rev in (False, True):
+                sp = json.loads(json.dumps(SHARED_WITNESS["spec"]))
+                if rev:
+                    sp["chans"].reverse()
+                if pre:
+                    sp["pre"] = [pre]
+                first.append({"kind": "evolution", "spec": sp})
         for tk in T_KINDS:                        # every grid container x every coefficient container, same values
             for ck in C_KINDS:
                 sp = {"dims": [2], "seed": 83, "drift": {"targets": [0]}, "dm": False,
@@ -2442,7 +2617,7 @@ class C14(PropertyCheck):
         i = 0
         while time.time() - t0 < budget_s:
             i += 1
-            spec = (make_rounding_spec(rng) if i % 6 == 0 else make_near_spec(rng) if i % 6 == 3 else make_dtype_spec(rng) if i % 6 == 5
+            spec = (make_rounding_spec(rng) if i % 6 == 0 else make_near_spec(rng) if i % 6 == 3 else make_dtype_spec(rng) if i % 6 == 5 else make_shared_spec(rng) if i % 6 == 1
                     else make_spec(rng, last_zero=not flags()["zl"], const=(i % 3 == 1)))
             w = {"kind": "evolution", "spec": spec}
             f, d = self.oracle_replay(ctx, w)
